@@ -97,7 +97,7 @@ func setup() {
 		os.Setenv("XDG_CONFIG_HOME", dir)
 		os.Setenv("HOME", dir)
 		caddy.ConfigAutosavePath = dir + "/autosave.json"
-		caddy.DefaultAdminListen = "localhost:0" // every load re-creates the admin listener
+		caddy.DefaultAdminListen = "127.0.0.1:0" // every load re-creates the admin listener (no name resolution)
 		// caddy logs every admin request and every load to stderr
 		if dn, err := os.OpenFile("/dev/null", os.O_WRONLY, 0); err == nil {
 			if fd, err := syscall.Dup(2); err == nil {
@@ -172,7 +172,7 @@ func do(method, path string, body []byte, hdr map[string]string) response {
 	}()
 	select {
 	case <-done:
-	case <-time.After(20 * time.Second):
+	case <-time.After(45 * time.Second):
 		return response{hung: true}
 	}
 	b, _ := io.ReadAll(w.Body)
@@ -573,6 +573,13 @@ func runHist(line, field string) core.Outcome {
 	var o core.Outcome
 	tags := map[string]bool{}
 	outs, status := playHist(steps, &o, tags)
+	if len(outs) > 0 && outs[len(outs)-1] == "hung" {
+		// a request that does not return is re-run alone (a loaded machine can stall one)
+		// before it is reported; a real deadlock hangs again
+		o = core.Outcome{}
+		tags = map[string]bool{"rerun-after-hang": true}
+		outs, status = playHist(steps, &o, tags)
+	}
 	o.Impl = strings.Join(outs, ";")
 
 	// ---- two-run relation: a rejected request changes nothing that any later request can see.
@@ -594,6 +601,10 @@ func runHist(line, field string) core.Outcome {
 		steps2[rej] = step{m: "H", path: steps[rej].path, body: "-", ifm: "-"}
 		var o2 core.Outcome
 		outs2, _ := playHist(steps2, &o2, map[string]bool{})
+		if len(outs2) > 0 && outs2[len(outs2)-1] == "hung" {
+			o2 = core.Outcome{}
+			outs2, _ = playHist(steps2, &o2, map[string]bool{})
+		}
 		tags["two-run"] = true
 		for i := range outs {
 			if i == rej || i >= len(outs2) || outs[i] == outs2[i] {
@@ -659,7 +670,7 @@ func playHist(steps []step, o *core.Outcome, tags map[string]bool) (outs []strin
 		r := do(methodName[st.m], st.path, st.bodyBytes(), st.headers(hdr))
 		status = append(status, r.status)
 		if r.hung {
-			o.Failures = append(o.Failures, core.Failure{Class: "request-hung", What: fmt.Sprintf("step %d did not return within 20s", i)})
+			o.Failures = append(o.Failures, core.Failure{Class: "request-hung", What: fmt.Sprintf("step %d did not return within 45s", i)})
 			outs = append(outs, "hung")
 			break
 		}
